@@ -79,6 +79,21 @@ Theorem C06_guard_sound_op :
       (r = RRaise EUnsupportedCapability \/ r = RFalse) /\ sends = [].
 Proof. exact guard_sound_op. Qed.
 
+(** ... and over sequences of operations on one connector: the outcomes of the k-th operation
+    are those of the operation alone (the guard programs read no connector state; a test on an
+    instance attribute is a nondeterministic choice), so its guard holds whatever was called
+    before. *)
+Theorem C06_guard_sound_seq :
+  forall (l : list (bexpr * gprog)),
+    (forall rp, In rp l -> checks_before_sends_op (fst rp) (snd rp) = true) ->
+    forall e k req p outs,
+      nth_error l k = Some (req, p) ->
+      nth_error (run_seq (map snd l) e) k = Some outs ->
+      outs = grun p e /\
+      forall r sends, In (r, sends) outs -> beval req e = false ->
+        (r = RRaise EUnsupportedCapability \/ r = RFalse) /\ sends = [].
+Proof. exact guard_sound_seq. Qed.
+
 (** A witness returned by the search really falsifies the requirement (so a failed check
     comes with a concrete interface to replay on the code). *)
 Theorem C06_ctor_witness_sound :
